@@ -166,6 +166,26 @@ for _kw in ("self", "cls", "args", "kwargs", "value", "property_", "element", "e
             CORNER_SCHEMAS.append({"type": _t, "title": "T", _kw: _val, "anyOf": [{}]} if _val == 1 else {"type": _t, "title": "T", _kw: _val})
 
 
+def _deep_schema(n, kw):
+    node = {"type": "integer"}
+    for _ in range(n):
+        if kw == "items":
+            node = {"items": node}
+        elif kw == "properties":
+            node = {"properties": {"a": node}}
+        elif kw == "not":
+            node = {"not": node}
+        elif kw == "anyOf":
+            node = {"anyOf": [node, {"type": "null"}]}
+        elif kw == "additionalProperties":
+            node = {"type": "object", "title": "D", "additionalProperties": node}
+    return node
+
+
+# finite but deep schemas: parsing may refuse them (schema-parse family), nothing else may escape
+DEEP_SCHEMAS = [(n, kw) for n in (50, 150, 300, 400, 700, 1500) for kw in ("items", "properties", "not", "anyOf", "additionalProperties")]
+
+
 def reversed_validator_order():
     """Context manager: iterate validator classes in reversed name order (harness-side patch)."""
     import contextlib
@@ -286,6 +306,24 @@ def work(item):
             if st.c["states"] % 37 == 1:
                 st.sample({"extreme_schema": runner.jsonable(schema), "values": len(vals)})
     elif item[0] == "corner":
+        from statham.schema.exceptions import SchemaParseError
+        from statham.schema.parser import parse_element as _pe
+
+        for n, kw in DEEP_SCHEMAS:
+            # built fresh and handed over without copying: the harness's own deepcopy / metaschema walk would overflow first
+            schema = _deep_schema(n, kw)
+            st.add("states")
+            st.add("transitions")
+            try:
+                _pe(schema)
+                kind = impl.ELEMENT
+            except SchemaParseError:
+                kind = impl.PARSE_ERROR
+            except BaseException as exc:  # noqa
+                kind = "OTHER:" + type(exc).__name__
+            st.outcome("parse-deep/" + kind)
+            if kind not in (impl.ELEMENT, impl.PARSE_ERROR):
+                st.violation("parse-escaped:%s:deep-finite-schema" % kind.split(":", 1)[1], "a finite schema nested %d levels through %r makes parsing raise %s" % (n, kw, kind), {"depth": n, "keyword": kw, "observed": kind})
         for schema in CORNER_SCHEMAS:
             if not metaschema_valid(schema):
                 st.add("dropped_not_metaschema_valid")
